@@ -208,7 +208,7 @@ impl<R: Read> CharRead for CharReader<R> {
             // we need to read more data from the underlying stream
             // so that we can determine its validity
 
-            if self.buf.len() > 4 {
+            if self.pos > 4 {
                 // keep a prefix of 4 bytes so that we can put back at least one char
                 self.buf.drain(4..self.pos);
                 self.pos = 4;
@@ -216,7 +216,16 @@ impl<R: Read> CharRead for CharReader<R> {
 
             match self.read_chunk() {
                 Err(e) => return Some(Err(e)),
-                Ok(0) => return Some(Err(bad_bytes_error(&self.buf))),
+                Ok(0) => {
+                    // the stream ended inside a multi-byte sequence: the
+                    // unconsumed bytes are the invalid data
+                    let bad_bytes = self.buf[self.pos..].to_vec();
+
+                    return Some(Err(io::Error::new(
+                        io::ErrorKind::InvalidData,
+                        BadUtf8Error { bytes: bad_bytes },
+                    )));
+                }
                 Ok(_) => {
                     // successfully filled the buffer with another chunk of data
                 }
